@@ -137,7 +137,7 @@ class Codec:
             self.vals = [None] + [{j: _fresh(FALSY[(3 * i + j + salt) % len(FALSY)]) for j in range(1, maxlen + 1)}
                                   for i in range(1, self.n + 1)]
         self.iter_vals = [None] + ([f"it{j}" for j in range(1, maxlen + 2)] if profile in ("plain", "eqall", "eqraises")
-                                   else [_fresh(FALSY[(j + salt) % len(FALSY)]) for j in range(1, maxlen + 2)])
+                                   else [_fresh(FALSY[(j - 1 + salt) % len(FALSY)]) for j in range(1, maxlen + 2)])   # salt 0: the first is None
 
     def tok(self, x: Any) -> Optional[int]:
         if isinstance(x, Tok):
